@@ -326,8 +326,8 @@ def sumCore (sm : Summation) (s : Seq) (zero : Option Seq) : R :=
     else .ok [.dec (exactSum s).1 (exactSum s).2]
 
 /-- §14.4.2 fn:avg = sum divided by count; xs:decimal division is rounded to 28 significant
-digits (the precision is implementation-defined), xs:double division is IEEE; an integral mean
-of integers is delivered as xs:integer -/
+digits (the precision is implementation-defined), xs:double division is IEEE; a mean of integers
+that is an integer is delivered exactly, as xs:integer (a subtype of the xs:decimal F&O asks for) -/
 def avgCore (sm : Summation) (s : Seq) : R :=
   if outsideAgg s then .error .UNSUPPORTED else
   match s with
@@ -337,9 +337,10 @@ def avgCore (sm : Summation) (s : Seq) : R :=
     else if anyDouble s then .ok [.dbl ((sm.avgD s).divNat s.length)]
     else
       let t := exactSum s
-      let r := roundSig28 t.1 (10 ^ t.2 * s.length)
-      if allInt s ∧ r.1 % (10 ^ r.2 : Nat) = 0 then .ok [.int (r.1 / (10 ^ r.2 : Nat))]
-      else .ok [.dec r.1 r.2]
+      if allInt s ∧ t.1 % (Int.ofNat s.length) = 0 then .ok [.int (t.1 / Int.ofNat s.length)]   -- exact
+      else
+        let r := roundSig28 t.1 (10 ^ t.2 * s.length)
+        .ok [.dec r.1 r.2]
 
 /-- §14.4.3 fn:max / §14.4.4 fn:min: all values of one comparable kind (FORG0006 otherwise).
 Numeric values: the greatest / least value; it is delivered as xs:double as soon as one double
